@@ -594,6 +594,10 @@ pub fn gen_string(rg: &mut Rg, cfg: &GenCfg) -> EnumSpec {
             }
             v.fields = vec![FieldSpec { name: if v.kind == Kind::Named { Some("inner".into()) } else { None }, ty, default_with: false }];
             attrs.push(VAttr::Default);
+            // both markers on one variant say the same thing twice for Display; the parser keeps its catch-all
+            if cfg.allow_transparent && !has_const_into && rg.chance(1, 6) && e.derives("Display") && !e.derives("AsRefStr") && !e.derives("IntoStaticStr") {
+                attrs.push(VAttr::Transparent);
+            }
         } else if want_transparent {
             v.kind = if rg.chance(2, 3) { Kind::Tuple } else { Kind::Named };
             let mut pool: Vec<FieldTy> = vec![FieldTy::StaticStr, FieldTy::Inner];
@@ -732,6 +736,8 @@ pub fn gen_string(rg: &mut Rg, cfg: &GenCfg) -> EnumSpec {
     // braces in non-placeholder literals confuse Display's placeholder scanner: only C17 plays with them
     use_generics(&mut e);
     repair_spellings(&mut e);
+    // harmless non-strum attributes on variants (`#[doc(hidden)]` is a doc attribute without text)
+    variant_noise(rg, &mut e, false);
     if cfg.dup_names && !e.derives("EnumString") {
         for vi in 1..e.variants.len() {
             let (a, b) = (&e.variants[vi - 1], &e.variants[vi]);
@@ -857,6 +863,17 @@ pub fn gen_iter(rg: &mut Rg, cfg: &IterCfg) -> EnumSpec {
         }
         if (mask >> vi) & 1 == 0 {
             attrs.extend(irrelevant_attrs(rg, vi));
+            // default_with belongs to EnumString: the iterator builds payloads with Default all the same
+            if kind == Kind::Tuple && nf == 1 && v.fields[0].ty.dw().is_some() && rg.chance(1, 5) {
+                attrs.push(VAttr::DefaultWith);
+            }
+            if kind == Kind::Named {
+                for f in v.fields.iter_mut() {
+                    if f.ty.dw().is_some() && rg.chance(1, 6) {
+                        f.default_with = true;
+                    }
+                }
+            }
         }
         if cfg.naming {
             match rg.weighted(&[(4, 0u8), (2, 1), (2, 2)]) {
@@ -1065,7 +1082,8 @@ pub fn gen_shape(rg: &mut Rg) -> EnumSpec {
     e.derives = vec!["EnumIs".into(), "EnumTryAs".into()];
     e.type_param = rg.chance(1, 4);
     e.lifetime = rg.chance(1, 5);
-    e.where_clause = false;
+    // bounds stated in a where clause (the emitter gives shape enums the bound `Clone` then)
+    e.where_clause = e.type_param && rg.chance(1, 2);
     e.type_param2 = e.type_param && rg.chance(1, 3);
     e.generic_defaults = e.type_param && rg.chance(1, 3);
     let n = rg.range(1, 8);
@@ -1519,6 +1537,15 @@ pub fn gen_disc(rg: &mut Rg) -> EnumSpec {
             continue; // rustc: conflicting representation hints on a field-less enum
         }
         e.disc_opts = Some(opts);
+        // the source enum may derive std's Default itself: its `#[default]` marker is none of D's business
+        if rg.chance(1, 5) {
+            let units: Vec<usize> = e.variants.iter().enumerate().filter(|(_, v)| v.kind == Kind::Unit).map(|(i, _)| i).collect();
+            if !units.is_empty() {
+                let at = *rg.pick(&units);
+                e.variants[at].noise.push("#[default]".to_string());
+                e.noise.push((0, "#[derive(Default)]".to_string()));
+            }
+        }
         // the source enum's own visibility varies as well (the glue sits in the parent module)
         e.vis = rg.pick(&["pub", "pub", "pub(crate)", "pub(super)"]).to_string();
         irrelevant_enum_attrs(rg, &mut e, false, false);
@@ -1712,7 +1739,6 @@ pub fn plainify(e: &mut EnumSpec) -> bool {
     }
     e.decoys.clear();
     e.generic_defaults = false;
-    e.noise.retain(|(_, t)| t.starts_with("///") || t.starts_with("#[allow"));
     for g in e.groups.iter_mut() {
         g.retain(|a| !matches!(a, EAttr::Crate(_)));
         for a in g.iter_mut() {
@@ -1756,7 +1782,6 @@ pub fn plainify(e: &mut EnumSpec) -> bool {
         if v.disc_passthrough.iter().any(|p| !(p.starts_with("strum(") || p == "default" || p.starts_with("doc"))) {
             return bail(e, backup);
         }
-        v.noise.retain(|t| t.starts_with("///"));
         let has_braces = v.attrs().any(|a| matches!(a, VAttr::ToString(s) | VAttr::Serialize(s) if s.contains('{') || s.contains('}')));
         if has_braces || v.fields.len() > 3 {
             return bail(e, backup);
@@ -1796,8 +1821,7 @@ pub fn plainify(e: &mut EnumSpec) -> bool {
                     }
                     VAttr::Props(ps) => {
                         for (key, val) in ps.iter_mut() {
-                            let kw = ["type", "fn", "match", "Self", "crate", "self", "super", "async", "dyn"];
-                            if !key.chars().all(|c| c.is_ascii_alphanumeric() || c == '_') || kw.contains(&key.as_str()) || key.starts_with('_') {
+                            if !key.chars().all(|c| c.is_ascii_alphanumeric() || c == '_') || key.starts_with('_') {
                                 key_n += 1;
                                 *key = format!("key{}", key_n);
                             }
